@@ -1,5 +1,6 @@
 import Texel.Model.QuadTree
 import Texel.Gen.Flags
+import Texel.Proofs.GenArith
 /-! # C14 — only true quadtree tile matrix sets pass validation
 
 Model `Texel.QT.isQuadTree` (hand-written mirror of `pointindex.IsQuadTree`, tied by the exhaustive `isquad` correspondence:
@@ -195,6 +196,17 @@ theorem C14_pixel_count (tms : List TM) (h : isQuadTree tms = none) (i : Nat) (h
     rw [b, c]
     simp only [List.getElem_cons_zero]
     rw [hk, Nat.log2_two_pow, Nat.pow_add, Nat.pow_add]
+
+/-- **C14 (pixel size, on the current source)**: the level that `pointindex.FromTileMatrixSet` and `snap.tileMatrixIDsByLevels` compute for
+tile matrix `i` of an accepted set (their arithmetic is regenerated from the source on every run, `Gen.Arith`) is the same, and the extent holds
+exactly `2^level` pixels of 1/16 cell on each axis -/
+theorem C14_level_used (tms : List TM) (h : isQuadTree tms = none) (i : Nat) (hi : i < tms.length) (xSpan : Int) :
+    Gen.Arith.snapLevelOf (tms[0]'(by omega)).tw i = Gen.Arith.indexDeepestLevel (tms[0]'(by omega)).tw i xSpan ∧
+    tms[i].mw * tms[i].tw * 16 = 2 ^ (Gen.Arith.snapLevelOf (tms[0]'(by omega)).tw i).toNat := by
+  obtain ⟨hl, hs, _, _⟩ := GenArith.gen_level (tms[0]'(by omega)).tw i xSpan
+  refine ⟨by rw [hl, hs], ?_⟩
+  rw [hs, Int.toNat_natCast]
+  exact (C14_pixel_count tms h i hi).2.2.2
 
 -- non-vacuity: a two-level quadtree is accepted; widening the second matrix by one is rejected by check 10
 def tm0 : TM := ⟨0, "0", 1, 1, 256, 256, 0, (0, 1), (0, 1), 0, 3440640, 1000⟩
